@@ -380,7 +380,13 @@ func (an *Analysis) handleStructFields(typ *types.Struct, ctx context) []StructF
 		if field.Embedded() && jsonName == "" {
 			if st, isStruct := fieldType.(*Struct); isStruct {
 				log.Printf("gomacro: embedded struct field %s will be flattened", field.Name())
-				out = append(out, st.Fields...)
+				fields := st.Fields
+				if under, ok := field.Type().Underlying().(*types.Struct); ok && len(fields) == 0 {
+					// the embedded struct may still be under analysis
+					// (when it refers back to the current type) : compute its fields now
+					fields = an.handleStructFields(under, ctx)
+				}
+				out = append(out, fields...)
 				continue
 			} else {
 				log.Printf("gomacro: field %s: embedding will be ignored", field.Name())
